@@ -69,6 +69,8 @@ SingleLine(i) == Len(Inl(i, "\n").lines) = 1
 Code(c) == CASE c = 1 -> [lines |-> <<"x">>, html |-> <<"x">>]
              [] c = 2 -> [lines |-> <<"*not em* <b> &amp;", "", "  y">>, html |-> <<"*not em* &lt;b&gt; &amp;amp;", "", "  y">>]
              [] c = 3 -> [lines |-> <<"``` ~~~ [l]: /u", "# h">>, html |-> <<"``` ~~~ [l]: /u", "# h">>]
+             [] c = 4 -> [lines |-> <<" x", " x", " x", " ```">>, html |-> <<" x", " x", " x", " ```">>]      \* a fence-like line behind indented lines
+NCode == 4
 Html(h) == CASE h = 1 -> <<"<div>", "raw *x*", "</div>">>
              [] h = 2 -> <<"<!-- c", "", "*y* -->">>
              [] h = 3 -> <<"<pre>", "", "    z", "</pre>">>
@@ -196,6 +198,9 @@ HasKind(kids, kind) == \E j \in 1..Len(kids) : kids[j][1] = kind \/ (kids[j][1] 
      meaning    Full.tla's Model(FmtText(doc, ch)).html = Denote(doc)          (checked by TLC through FullTrace.tla: C20's second
                                                                                 clause as a theorem of the two models)            *)
 NL == "\n"
+\* the longest line of the content that looks like a backtick fence (at most three spaces, backticks, nothing else): the formatter's fence is longer
+FenceLike(c) == IF c = 4 THEN 3 ELSE 0
+FmtFence(c) == Rep("`", IF FenceLike(c) >= 3 THEN FenceLike(c) + 1 ELSE 3)
 \* what visitInline / postInline make of snippet i: text nodes get the formatter's escapes, emphasis / code spans / raw tags / images /
 \* references / breaks are copied from the source, links are re-assembled (shortcut references become collapsed ones)
 InlF(i) ==
@@ -230,23 +235,26 @@ WT(st, toks) == IF toks = <<>> THEN st ELSE WT(W(st, Head(toks)), Tail(toks))
 PushI(st, str) == [st EXCEPT !.ind = Append(@, IndOf(str))]
 PopI(st) == [st EXCEPT !.ind = SubSeq(@, 1, Len(@) - 1)]
 Sep(st) == IF st.written THEN W(st, NL) ELSE st      \* "if fw.hasWritten { fw.s("\n") }"
+\* separateBlock: inside an item of a tight list a block that follows a finished line gets no blank line before it
+SepT(st, ptight) == IF ~st.written THEN st ELSE IF ~st.started /\ ptight THEN st ELSE W(st, NL)
 \* FB(nd, idx, ptight, c, st): Pre, children, Post of block nd, the idx-th block (0-based) of its container; ptight: the container is an item of a tight list
 RECURSIVE FB(_, _, _, _, _), FSeq(_, _, _, _, _), FItems(_, _, _, _, _, _)
 FB(nd, idx, ptight, c, st) ==
   LET k == nd[1] IN
-  CASE k = "para" -> LET s1 == IF idx = 0 THEN st ELSE W(st, NL)
+  CASE k = "para" -> LET s1 == IF idx = 0 THEN st ELSE SepT(st, ptight)
                          s2 == WT(s1, Toks(InlF(nd[2])))
                      IN IF ptight THEN s2 ELSE W(s2, NL)
     [] k = "hr" -> IF ~st.written THEN WT(st, <<"***", NL, NL>>)
-                   ELSE IF ptight THEN WT(st, <<NL, "---", NL>>) ELSE WT(st, <<NL, "---", NL, NL>>)
-    [] k = "atx" -> W(WT(W(Sep(st), Rep("#", nd[2][1]) \o " "), Toks(InlF(nd[2][2]))), NL)
-    [] k = "setext" -> WT(WT(Sep(st), Toks(InlF(nd[2][2]))), <<NL, IF nd[2][1] = 1 THEN "=====" ELSE "-----", NL>>)
-    [] k = "fence" -> WT(WT(WT(Sep(st), <<"```" \o (IF nd[2][1] THEN "lang extra" ELSE ""), NL>>), TokLines(Code(nd[2][2]).lines)), <<"```", NL>>)
-    [] k = "icode" -> WT(WT(WT(Sep(st), <<"```", NL>>), TokLines(Code(nd[2]).lines)), <<"```", NL>>)
-    [] k = "html" -> WT(Sep(st), TokLines(Html(nd[2])))
-    [] k = "quote" -> PopI(FSeq(nd[3], 1, FALSE, c, PushI(W(Sep(st), "> "), "> ")))
-    [] k = "ul" -> FItems(nd[3], 1, nd[2], FALSE, c, Sep(st))
-    [] k = "ol" -> FItems(nd[3], 1, nd[2], TRUE, c, Sep(st))
+                   ELSE IF ptight THEN WT(IF st.started THEN W(st, NL) ELSE st, <<"***", NL>>)     \* no blank line, and not "---" below a paragraph
+                   ELSE WT(st, <<NL, "---", NL, NL>>)
+    [] k = "atx" -> W(WT(W(SepT(st, ptight), Rep("#", nd[2][1]) \o " "), Toks(InlF(nd[2][2]))), NL)
+    [] k = "setext" -> WT(WT(SepT(st, ptight), Toks(InlF(nd[2][2]))), <<NL, IF nd[2][1] = 1 THEN "=====" ELSE "-----", NL>>)
+    [] k = "fence" -> WT(WT(WT(SepT(st, ptight), <<FmtFence(nd[2][2]) \o (IF nd[2][1] THEN "lang extra" ELSE ""), NL>>), TokLines(Code(nd[2][2]).lines)), <<FmtFence(nd[2][2]), NL>>)
+    [] k = "icode" -> WT(WT(WT(SepT(st, ptight), <<FmtFence(nd[2]), NL>>), TokLines(Code(nd[2]).lines)), <<FmtFence(nd[2]), NL>>)
+    [] k = "html" -> WT(SepT(st, ptight), TokLines(Html(nd[2])))
+    [] k = "quote" -> PopI(FSeq(nd[3], 1, FALSE, c, PushI(W(SepT(st, ptight), "> "), "> ")))
+    [] k = "ul" -> FItems(nd[3], 1, nd[2], FALSE, c, SepT(st, ptight))
+    [] k = "ol" -> FItems(nd[3], 1, nd[2], TRUE, c, SepT(st, ptight))
 FSeq(kids, i, ptight, c, st) == IF i > Len(kids) THEN st ELSE FSeq(kids, i + 1, ptight, c, FB(kids[i], i - 1, ptight, c, st))
 FItems(items, i, tight, ordered, c, st) ==
   IF i > Len(items) THEN st
@@ -276,7 +284,7 @@ Leaves ==
                              \cup {<<"setext", <<2, i>>, <<>>>> : i \in {2, 6, 14, 15, 16, 20, 28}}
     [] LeafSet = "finline" -> {<<"para", i, <<>>>> : i \in FmtInl} \cup {<<"atx", <<3, i>>, <<>>>> : i \in {j \in FmtInl : SingleLine(j)}}
                               \cup {<<"setext", <<2, i>>, <<>>>> : i \in {2, 6, 14, 15, 16, 20, 28}}
-    [] LeafSet \in {"code", "fcode"} -> {<<"fence", <<b, c>>, <<>>>> : b \in BOOLEAN, c \in 1..3} \cup {<<"icode", c, <<>>>> : c \in 1..3}
+    [] LeafSet \in {"code", "fcode"} -> {<<"fence", <<b, c>>, <<>>>> : b \in BOOLEAN, c \in 1..NCode} \cup {<<"icode", c, <<>>>> : c \in 1..NCode}
                            \cup {<<"html", h, <<>>>> : h \in 1..3} \cup {<<"para", 1, <<>>>>, <<"hr", 0, <<>>>>}
 Containers == {<<"quote", FALSE>>, <<"ul", TRUE>>, <<"ul", FALSE>>, <<"ol", TRUE>>, <<"ol", FALSE>>}
 
@@ -286,10 +294,26 @@ Init == stack = <<[kind |-> "doc", attr |-> FALSE, kids |-> <<>>]>> /\ n = 0 /\ 
 Top == stack[Len(stack)]
 InTightItem == Len(stack) >= 2 /\ Top.kind = "li" /\ stack[Len(stack) - 1].attr
 InList == \E d \in 1..Len(stack) : stack[d].kind = "li"
+\* May a block of kind bk (b: the node when it is a leaf) directly follow block a inside an item of a TIGHT list, i.e. with no blank
+\* line between them? Only pairs whose second block starts a new block by the spec's own rules: a paragraph is interrupted by an ATX
+\* heading, a thematic break, a fence, an HTML block of type 1-6, a block quote, a bullet item or an ordered item numbered 1; a line
+\* behind a quote or a nested list whose last paragraph is still open must not be a lazy continuation line; an HTML block of type 6
+\* only ends at a blank line, so nothing follows it.
+TightPairOK(a, bk, b) ==
+  LET ak == a[1]
+      htmlOK == bk = "html" /\ b[2] \in {1, 2}
+  IN CASE ak = "para" -> bk \in {"atx", "hr", "fence", "quote", "ul"} \/ htmlOK \/ (bk = "ol" /\ ch.ostart = 1)
+       [] ak \in {"atx", "setext", "hr", "fence"} -> bk \in {"para", "atx", "setext", "hr", "fence", "icode", "quote", "ul", "ol"} \/ htmlOK
+       [] ak = "icode" -> bk \in {"para", "atx", "setext", "hr", "fence", "quote", "ul", "ol"} \/ htmlOK
+       [] ak = "html" -> a[2] = 2 /\ (bk \in {"para", "atx", "setext", "hr", "fence", "quote", "ul", "ol"} \/ htmlOK)
+       [] ak = "quote" -> bk \in {"atx", "hr", "fence", "ul"} \/ htmlOK \/ (bk = "ol" /\ ch.ostart = 1)
+       [] ak \in {"ul", "ol"} -> bk \in {"atx", "hr", "fence", "quote"} \/ htmlOK
+       [] OTHER -> FALSE
+LastKid == Top.kids[Len(Top.kids)]
 \* compositions whose meaning would depend on more than the rule being exercised are not generated
 CanAddLeaf(l) ==
   /\ Top.kind \notin {"ul", "ol"}
-  /\ (InTightItem => Top.kids = <<>>)                                   \* a tight item holds exactly one block
+  /\ (InTightItem /\ Top.kids # <<>> => TightPairOK(LastKid, l[1], l))   \* blocks of a tight item follow each other without a blank line
   /\ (l[1] = "icode" /\ Top.kind = "li" => Top.kids # <<>>)             \* indented code is not the first block of an item
   /\ (l[1] = "icode" /\ Top.kids # <<>> => Top.kids[Len(Top.kids)][1] \notin {"icode", "ul", "ol"})   \* would merge with the previous code block / continue the previous list item
   /\ (l[1] = "html" /\ l[2] = 3 => ~InList /\ Top.kind = "doc")         \* <pre> with indented content only at the root
@@ -299,8 +323,9 @@ AddLeaf == /\ n < MaxNodes
            /\ \E l \in Leaves : CanAddLeaf(l) /\ stack' = [stack EXCEPT ![Len(stack)].kids = Append(@, l)]
            /\ n' = n + 1 /\ UNCHANGED ch
 Open == /\ n < MaxNodes /\ Len(stack) <= MaxDepth
-        /\ Top.kind \notin {"ul", "ol"} /\ ~InTightItem
+        /\ Top.kind \notin {"ul", "ol"}
         /\ \E c \in Containers :
+             /\ (InTightItem /\ Top.kids # <<>> => TightPairOK(LastKid, c[1], <<>>))
              /\ (c[1] \in {"ul", "ol"} /\ Top.kids # <<>> => Top.kids[Len(Top.kids)][1] \notin {"ul", "ol"})   \* adjacent lists would merge or need a marker change
              /\ stack' = Append(stack, [kind |-> c[1], attr |-> c[2], kids |-> <<>>])
         /\ n' = n + 1 /\ UNCHANGED ch
@@ -311,7 +336,7 @@ OpenItem == /\ n < MaxNodes /\ Len(stack) <= MaxDepth + 1
 \* a loose list needs a blank line between items or between two blocks of an item
 CanClose == /\ Len(stack) > 1 /\ Top.kids # <<>>
             /\ (Top.kind \in {"ul", "ol"} /\ ~Top.attr => (Len(Top.kids) >= 2 \/ \E j \in 1..Len(Top.kids) : Len(Top.kids[j][3]) >= 2))
-            /\ (Top.kind \in {"ul", "ol"} /\ Top.attr => \A j \in 1..Len(Top.kids) : Len(Top.kids[j][3]) = 1)
+            /\ (Top.kind \in {"ul", "ol"} /\ Top.attr => \A j \in 1..Len(Top.kids) : Len(Top.kids[j][3]) >= 1)
 Close == /\ CanClose
          /\ LET node == <<Top.kind, Top.attr, Top.kids>>
                 rest == SubSeq(stack, 1, Len(stack) - 1)
